@@ -605,6 +605,70 @@ func TestFoldTable(t *testing.T) {
 	}
 }
 
+// ---- labels next to the 999-character limit. "A link label can have at most
+// 999 characters inside the square brackets", and a character is a code point:
+// container prefixes on the label's continuation lines, the bytes of multi-byte
+// characters and the way the label is used (shortcut, collapsed, full) do not
+// count. The definition and the use resolve iff the label has at most 999
+// characters.
+func genLongLabel(t *rapid.T) harness.Case {
+	n := rapid.IntRange(985, 1003).Draw(t, "labellen")
+	if rapid.IntRange(0, 2).Draw(t, "exact") > 0 {
+		n = []int{998, 999, 1000, 1001}[rapid.IntRange(0, 3).Draw(t, "exactlen")]
+	}
+	unit := []string{"a", "a", "é", "猫", "\U00010100"}[rapid.IntRange(0, 4).Draw(t, "unit")]
+	lab := make([]string, n)
+	for i := range lab {
+		lab[i] = unit
+		if unit != "a" && i%3 == 1 {
+			lab[i] = "b"
+		}
+	}
+	lines := rapid.IntRange(1, 40).Draw(t, "labellines")
+	for i := 1; i < lines; i++ {
+		p := rapid.IntRange(2, n-3).Draw(t, "breakpos")
+		if lab[p-1] == "\n" || lab[p] == "\n" || lab[p+1] == "\n" {
+			continue
+		}
+		lab[p] = "\n"
+	}
+	l := strings.Join(lab, "")
+	use := []string{"[" + l + "]", "[" + l + "][]", "[x][" + l + "]", "![" + l + "]"}[rapid.IntRange(0, 3).Draw(t, "use")]
+	cont := rapid.IntRange(0, 4).Draw(t, "container")
+	prefix, rest := [][2]string{{"", ""}, {"> ", "> "}, {"- ", "  "}, {"> 1. ", ">    "}, {">", ">"}}[cont][0], [][2]string{{"", ""}, {"> ", "> "}, {"- ", "  "}, {"> 1. ", ">    "}, {">", ">"}}[cont][1]
+	def := "[" + l + "]: /u"
+	var doc string
+	if rapid.Bool().Draw(t, "deffirst") {
+		doc = inContainer(def+"\n", prefix, rest) + "\n" + inContainer("w "+use+" w\n", prefix, rest)
+	} else {
+		doc = inContainer("w "+use+" w\n", prefix, rest) + "\n" + inContainer(def+"\n", prefix, rest)
+	}
+	c := harness.Case{In: []byte(doc)}
+	c.SetI("chars", n)
+	c.SetI("container", cont)
+	c.SetS("unit", unit)
+	return c
+}
+
+func propLongLabel(c harness.Case) harness.Result {
+	var res harness.Result
+	blocks, refs := cm.Parse(append([]byte(nil), c.In...))
+	var buf bytes.Buffer
+	(&cm.HTMLRenderer{ReferenceMap: refs, IgnoreRaw: true}).Render(&buf, blocks)
+	out := buf.String()
+	got := strings.Contains(out, "href=\"/u\"") || strings.Contains(out, "src=\"/u\"")
+	want := c.I["chars"] <= 999
+	res.Nontrivial = true
+	res.Labels = append(res.Labels, fmt.Sprintf("chars_%d", c.I["chars"]), fmt.Sprintf("container_%d", c.I["container"]), fmt.Sprintf("unit_bytes_%d", len(c.S["unit"])))
+	if got != want {
+		res.Err = fmt.Errorf("a label of %d characters (unit %q, container %d): resolved = %v, want %v (at most 999 characters inside the brackets, container prefixes and extra bytes of multi-byte characters not counted)", c.I["chars"], c.S["unit"], c.I["container"], got, want)
+	}
+	if want && len(refs) != 1 {
+		res.Err = fmt.Errorf("a label of %d characters: the reference map has %d entries, want 1", c.I["chars"], len(refs))
+	}
+	return res
+}
+
 func TestProperty(t *testing.T) {
 	// harness self-check: the hand-written fold table against x/text
 	for r, want := range foldTable {
@@ -615,6 +679,8 @@ func TestProperty(t *testing.T) {
 	harness.Run(t, harness.Plan{Prop: "C12", Suppress: findings.Suppressor("C12"), Checks: []harness.Check{
 		{Name: "resolve", Quick: 80000, Thorough: 1000000, Gen: genResolve, Prop: propResolve,
 			Rule: "history of 1-4 definitions (labels = re-spellings / edits of a base label over an alphabet with multi-character folds, interior white space runs incl. line endings, edge white space of ASCII and Unicode kinds, escaped brackets; at top level, in a quote or in a list item; with/without title; destination and title on the same or on the following line, destination bare or in angle brackets; document line endings LF, CRLF or CR) and one use (shortcut, collapsed, full, or full with empty link text; link or image; between words, at the end of its line, as the content of an ATX heading, possibly as the last bytes of a document without final line ending) placed before, between or after them; oracle = the use resolves iff some definition's label has the same reference-normalised form, to the first such definition's destination and title; non-trivial = resolves with labels that differ as strings, a near miss (differs only by case / white-space spelling yet must not match, or vice versa), or >= 2 competing definitions"},
+		{Name: "long_labels", Quick: 6000, Thorough: 100000, Gen: genLongLabel, Prop: propLongLabel,
+			Rule: "a definition and a use (shortcut, collapsed, full, image) of a label of 985-1003 characters (two in three exactly 998-1001), made of one-, two-, three- or four-byte characters, written on 1-40 lines, at top level, in a quote (with and without the optional space), in a list item or in a list item in a quote; oracle = both resolve iff the label has at most 999 characters (code points), whatever its byte length and whatever the container prefixes add to the source between the brackets"},
 		{Name: "closure", Quick: 100000, Thorough: 1000000, Gen: func(t *rapid.T) harness.Case {
 			if rapid.IntRange(0, 9).Draw(t, "g") < 7 {
 				return harness.Case{In: genRefSoup(t)}
